@@ -3,7 +3,7 @@
 import ast
 import re as re_
 
-from .. import blocks, dtypes, dunder_sub, polarity, proto, roles
+from .. import blocks, dtypes, dunder_sub, misc_guards, polarity, proto, roles
 from ..core import AnalysisError
 from ..proto import NC, NCEval
 from ..src import arg_names, calls_in, unparse
@@ -441,6 +441,7 @@ def run(ctx):
     homomorphism(ctx)
     guards(ctx)
     polarity.guard_polarity(ctx)
+    misc_guards.compat_definition(ctx)
     def_assign(ctx)
     packing(ctx)
     dtypes.dtype_folds(ctx)
